@@ -804,4 +804,143 @@ theorem parseLoop_dateTime (e : Env) {v : Str} {i : Nat} (year : Int) (m d H M S
   rw [hf, hp]
   simp [parseLoop, skip_ok hj, ht]
 
+/-! ### `strip()` does nothing to printed values -/
+
+def NoSpace (e : Env) (s : Str) : Prop := ∀ c ∈ s, e.isSpace c = false
+
+theorem NoSpace.nil (e : Env) : NoSpace e [] := by intro c hc; cases hc
+
+theorem NoSpace.cons {e : Env} {c : Char} {s : Str} (hc : e.isSpace c = false) (hs : NoSpace e s) :
+    NoSpace e (c :: s) := by
+  intro d hd; simp at hd; rcases hd with rfl | hd
+  · exact hc
+  · exact hs d hd
+
+theorem NoSpace.append {e : Env} {s t : Str} (hs : NoSpace e s) (ht : NoSpace e t) :
+    NoSpace e (s ++ t) := by
+  intro d hd; simp at hd; rcases hd with hd | hd
+  · exact hs d hd
+  · exact ht d hd
+
+theorem noSpace_zpad (e : Env) (n w : Nat) : NoSpace e (zpad n w) :=
+  fun c hc => not_space_of_digit e (zpad_AllD n w c hc)
+
+theorem strip_noSpace (e : Env) (s : Str) (h : NoSpace e s) : e.strip s = s := by
+  apply strip_eq
+  · intro c hc; exact h c (List.mem_of_mem_head? hc)
+  · intro c hc; exact h c (List.mem_of_mem_getLast? hc)
+
+theorem noSpace_formatOffset (e : Env) (o : Option Int) : NoSpace e (formatOffset o) := by
+  cases o with
+  | none => exact NoSpace.nil e
+  | some x =>
+    by_cases h0 : x = 0
+    · subst h0; exact NoSpace.cons rfl (NoSpace.nil e)
+    · by_cases hneg : x < 0
+      · have hxn : x = -((x.natAbs : Nat) : Int) := by omega
+        rw [hxn, formatOffset_neg _ (by omega)]
+        exact NoSpace.cons rfl ((noSpace_zpad e _ _).append (NoSpace.cons rfl (noSpace_zpad e _ _)))
+      · have hxn : x = ((x.natAbs : Nat) : Int) := by omega
+        rw [hxn, formatOffset_pos _ (by omega)]
+        exact NoSpace.cons rfl ((noSpace_zpad e _ _).append (NoSpace.cons rfl (noSpace_zpad e _ _)))
+
+theorem noSpace_fracStr (e : Env) (F : Nat) : NoSpace e (fracStr F) := by
+  unfold fracStr
+  split
+  · exact NoSpace.nil e
+  · split
+    · exact NoSpace.cons rfl (noSpace_zpad e _ _)
+    · split
+      · exact NoSpace.cons rfl (noSpace_zpad e _ _)
+      · exact NoSpace.cons rfl (noSpace_zpad e _ _)
+
+theorem noSpace_formatTime (e : Env) (H M S F : Nat) : NoSpace e (formatTime H M S F) := by
+  rw [formatTime_eq]
+  exact (noSpace_zpad e _ _).append (NoSpace.cons rfl ((noSpace_zpad e _ _).append
+    (NoSpace.cons rfl ((noSpace_zpad e _ _).append (noSpace_fracStr e F)))))
+
+theorem noSpace_formatDate (e : Env) (year : Int) (m d : Nat) : NoSpace e (formatDate year m d) := by
+  rw [formatDate_eq]
+  have hy : NoSpace e (yearStr year) := by
+    unfold yearStr; split
+    · exact NoSpace.cons rfl (noSpace_zpad e _ _)
+    · exact noSpace_zpad e _ _
+  exact hy.append (NoSpace.cons rfl ((noSpace_zpad e _ _).append
+    (NoSpace.cons rfl (noSpace_zpad e _ _))))
+
+/-! ### round trips, natural-number fields -/
+
+theorem time_roundtrip_nat (e : Env) (H M S F : Nat) (o : Option Int)
+    (hH : H < 100) (hM : M < 100) (hS : S < 100) (hF : F ≤ 999999999)
+    (ho : ∀ x, o = some x → -6000 < x ∧ x < 6000)
+    (hv : validateTime H M S F = true) :
+    XmlTime.fromString e (XmlTime.str ⟨H, M, S, F, o⟩) = some ⟨H, M, S, F, o⟩ := by
+  unfold XmlTime.fromString XmlTime.str parseDateArgs
+  simp only []
+  rw [strip_noSpace e _ ((noSpace_formatTime e H M S F).append (noSpace_formatOffset e o)),
+    parseLoop_time e H M S F o hH hM hS hF ho (Sfx.start _)]
+  simp [hv]
+
+theorem date_roundtrip_nat (e : Env) (year : Int) (m d : Nat) (o : Option Int)
+    (hm : m < 100) (hd : d < 100)
+    (ho : ∀ x, o = some x → -6000 < x ∧ x < 6000)
+    (hv : validateDate year m d = true) :
+    XmlDate.fromString e (XmlDate.str ⟨year, m, d, o⟩) = some ⟨year, m, d, o⟩ := by
+  unfold XmlDate.fromString XmlDate.str parseDateArgs
+  simp only []
+  rw [strip_noSpace e _ ((noSpace_formatDate e year m d).append (noSpace_formatOffset e o)),
+    parseLoop_date e year m d o hm hd ho (Sfx.start _)]
+  simp [hv]
+
+theorem dateTime_roundtrip_nat (e : Env) (year : Int) (m d H M S F : Nat) (o : Option Int)
+    (hm : m < 100) (hd : d < 100)
+    (hH : H < 100) (hM : M < 100) (hS : S < 100) (hF : F ≤ 999999999)
+    (ho : ∀ x, o = some x → -6000 < x ∧ x < 6000)
+    (hvd : validateDate year m d = true) (hvt : validateTime H M S F = true) :
+    XmlDateTime.fromString e (XmlDateTime.str ⟨year, m, d, H, M, S, F, o⟩) =
+      some ⟨year, m, d, H, M, S, F, o⟩ := by
+  unfold XmlDateTime.fromString XmlDateTime.str parseDateArgs
+  simp only []
+  rw [strip_noSpace e _ ((((noSpace_formatDate e year m d).append (NoSpace.cons rfl (NoSpace.nil e))).append
+      (noSpace_formatTime e H M S F)).append (noSpace_formatOffset e o)),
+    parseLoop_dateTime e year m d H M S F o hm hd hH hM hS hF ho (Sfx.start _)]
+  simp [hvd, hvt]
+
+/-- every entry of the month-length table is a two-digit number (re-checked
+against the regenerated table) -/
+theorem mdays_small : ∀ d ∈ Tables.mdays, d ≤ 98 := by decide
+
+theorem validateDate_bounds (y m d : Int) (h : validateDate y m d = true) :
+    1 ≤ m ∧ m ≤ 12 ∧ 1 ≤ d ∧ d ≤ 99 := by
+  unfold validateDate at h
+  split at h
+  · simp at h
+  · rename_i hm
+    simp at hm
+    split at h
+    · simp at h
+    · rename_i md hmd
+      simp at h
+      unfold monthlen at hmd
+      cases hg : Tables.mdays[m.toNat]? with
+      | none => simp [hg] at hmd
+      | some d0 =>
+        have hmem : d0 ∈ Tables.mdays := List.mem_of_getElem? hg
+        have := mdays_small d0 hmem
+        simp [hg] at hmd
+        refine ⟨hm.1, hm.2, h.1, ?_⟩
+        split at hmd <;> omega
+
+theorem validateTime_bounds (h mi s f : Int) (hv : validateTime h mi s f = true) :
+    0 ≤ h ∧ h ≤ 24 ∧ 0 ≤ mi ∧ mi ≤ 59 ∧ 0 ≤ s ∧ s ≤ 59 ∧ 0 ≤ f ∧ f ≤ 999999999 := by
+  unfold validateTime at hv
+  split at hv; · simp at hv
+  split at hv; · simp at hv
+  split at hv; · simp at hv
+  split at hv; · simp at hv
+  split at hv; · simp at hv
+  rename_i h1 h2 h3 h4 h5
+  simp at h1 h3 h4 h5
+  omega
+
 end Proofs.DatesFormatParse
